@@ -24,6 +24,57 @@ pub fn tree_json<const K: usize>(t: &Tree<i64, K>) -> Value {
     json!({"root": root, "len": t.len(), "nodes": nodes})
 }
 
+/// Read-only accessors of the tree, called for every index 0..=max+1 (the last one is vacant) on a clone;
+/// the clone is compared with the original afterwards ("changed").
+pub fn acc_json<const K: usize>(t: &Tree<i64, K>) -> Value {
+    let mut c = t.clone();
+    let maxi = t.node_iter().map(|(i, _)| i).max().unwrap_or(0);
+    let edge = |r: Result<Result<(usize, i64, usize, usize, i64), ()>, String>| match r {
+        Ok(Ok((s, sv, l, d, tv))) => json!({"res": "ok", "src": s, "label": l, "dst": d, "sv": sv, "tv": tv}),
+        Ok(Err(_)) => json!({"res": "err", "src": -1, "label": -1, "dst": -1, "sv": -1, "tv": -1}),
+        Err(_) => json!({"res": "panic", "src": -1, "label": -1, "dst": -1, "sv": -1, "tv": -1}),
+    };
+    let scalar = |r: Result<Result<i64, ()>, String>| match r {
+        Ok(Ok(v)) => json!({"res": "ok", "v": v}),
+        Ok(Err(_)) => json!({"res": "err", "v": -1}),
+        Err(_) => json!({"res": "panic", "v": -1}),
+    };
+    let mut rows = Vec::new();
+    for i in 0..=maxi + 1 {
+        let parent = edge(guarded(|| t.parent(i).map(|e| (e.source_idx, *e.source_value, e.label, e.target_idx, *e.target_value)).map_err(|_| ())));
+        let parent_mut = edge(guarded(|| c.parent_mut(i).map(|e| (e.source_idx, *e.source_value, e.label, e.target_idx, *e.target_value)).map_err(|_| ())));
+        let child: Vec<Value> = (0..K).map(|l| edge(guarded(|| t.child(i, l).map(|e| (e.source_idx, *e.source_value, e.label, e.target_idx, *e.target_value)).map_err(|_| ())))).collect();
+        let child_mut: Vec<Value> = (0..K).map(|l| edge(guarded(|| c.child_mut(i, l).map(|e| (e.source_idx, *e.source_value, e.label, e.target_idx, *e.target_value)).map_err(|_| ())))).collect();
+        let children = match guarded(|| t.children(i).map(|e| { let (s, sv, l, d, tv) = e.extract(); json!({"res": "ok", "src": s, "label": l, "dst": d, "sv": *sv, "tv": *tv}) }).collect::<Vec<_>>()) {
+            Ok(v) => json!({"res": "ok", "list": v}),
+            Err(_) => json!({"res": "panic", "list": []}),
+        };
+        let children_rev = match guarded(|| t.children(i).rev().map(|e| { let g = e.edge(); json!([g.source_idx, g.label, g.target_idx]) }).collect::<Vec<_>>()) {
+            Ok(v) => json!({"res": "ok", "list": v}),
+            Err(_) => json!({"res": "panic", "list": []}),
+        };
+        let node_children = match guarded(|| t.tree_node(i).map(|nd| nd.children_iter().map(|(l, d)| json!([l, d])).collect::<Vec<_>>()).map_err(|_| ())) {
+            Ok(Ok(v)) => json!({"res": "ok", "list": v}),
+            Ok(Err(_)) => json!({"res": "err", "list": []}),
+            Err(_) => json!({"res": "panic", "list": []}),
+        };
+        rows.push(json!({
+            "i": i,
+            "contains": guarded(|| t.contains(i)).unwrap_or(false),
+            "is_root": guarded(|| t.is_root(i)).unwrap_or(false),
+            "is_leaf": scalar(guarded(|| t.is_leaf(i).map(|b| b as i64).map_err(|_| ()))),
+            "value": scalar(guarded(|| t.node_value(i).map(|v| *v).map_err(|_| ()))),
+            "value_mut": scalar(guarded(|| c.node_value_mut(i).map(|v| *v).map_err(|_| ()))),
+            "nchild": scalar(guarded(|| Ok(t.num_children(i) as i64))),
+            "tnode_mut": scalar(guarded(|| c.tree_node_mut(i).map(|nd| nd.value).map_err(|_| ()))),
+            "tnode2": scalar(guarded(|| { let r = t.get_root_idx(); if r == i { Ok(-2) } else { c.tree_node2_mut(i, r).map(|(a, _)| a.value).map_err(|_| ()) } })),
+            "parent": parent, "parent_mut": parent_mut, "child": child, "child_mut": child_mut,
+            "children": children, "children_rev": children_rev, "node_children": node_children,
+        }));
+    }
+    json!({"rows": rows, "is_empty": t.is_empty(), "changed": tree_json(&c) != tree_json(t)})
+}
+
 /// Applies one op; returns (res, ret)
 pub fn apply_op<const K: usize>(t: &mut Tree<i64, K>, op: &Value) -> (String, i64) {
     let name = op["op"].as_str().unwrap_or("");
@@ -67,7 +118,7 @@ fn run_k<const K: usize>(sc: &Value, id: usize, out: Out) {
         let (res, ret) = apply_op(&mut t, op);
         if record {
             out(json!({"fam": "arena", "sc": id, "step": j, "first": !all || j == 0, "k": K, "op": op, "orphans": orphans_before,
-                       "pre": pre, "post": tree_json(&t), "res": res, "ret": ret,
+                       "pre": pre, "post": tree_json(&t), "acc": acc_json(&t), "res": res, "ret": ret,
                        "exp": if j + 1 == n { sc.get("exp").cloned().unwrap_or(json!({"res": "none", "ret": -1})) } else { json!({"res": "none", "ret": -1}) }}));
         }
     }
@@ -183,6 +234,7 @@ fn metrics_k<const K: usize>(sc: &Value, id: usize, out: Out) {
         }
         Err(_) => (-1, -1, -1, -1, false),
     };
+    let terminals_mut = { let mut c = t.clone(); let v = c.terminals_mut().map(|n| json!([n.idx, *n.value])).collect::<Vec<_>>(); v };
     out(json!({"fam": "metrics", "sc": id, "first": true, "k": K, "tree": tree_json(&t),
         "node_indices": t.node_indices().collect::<Vec<_>>(),
         "terminal_indices": t.terminal_indices().collect::<Vec<_>>(),
@@ -192,6 +244,13 @@ fn metrics_k<const K: usize>(sc: &Value, id: usize, out: Out) {
         "decisions": t.decisions().map(|n| json!([n.idx, n.value])).collect::<Vec<_>>(),
         "edges": t.edge_iter().map(|e| json!([e.source_idx, e.label, e.target_idx])).collect::<Vec<_>>(),
         "dfs_edges": t.dfs_edge_iter().map(|e| json!([e.src, e.label, e.dest])).collect::<Vec<_>>(),
+        "dfs_nodes": t.dfs_iter().map(|d| json!([d.depth, d.index, d.n_remaining])).collect::<Vec<_>>(),
+        "bfs_wrap": affinitree::tree::iter::TraversalIter::<Bfs, i64, K>::new(&t, t.get_root_idx()).map(|d| json!([d.depth, d.index, d.n_remaining])).collect::<Vec<_>>(),
+        "node_indices_rev": t.node_indices().rev().collect::<Vec<_>>(),
+        "terminal_indices_rev": t.terminal_indices().rev().collect::<Vec<_>>(),
+        "decision_indices_rev": t.decision_indices().rev().collect::<Vec<_>>(),
+        "edges_rev": t.edge_iter().rev().map(|e| json!([e.source_idx, e.label, e.target_idx])).collect::<Vec<_>>(),
+        "terminals_mut": terminals_mut,
         "num_terminals": t.num_terminals(), "len": t.len(),
         "depth": guarded(|| t.depth() as i64).unwrap_or(-1),
         "num_nodes": num_nodes, "paths": paths,
